@@ -43,6 +43,14 @@ def lists(rng, tier):
                 out.append([a, s, b])
                 out.append([a, s, b, s])
     out += [[SEMI], [COMMA], [COMMA, COMMA], [SEMI, COMMA], [COMMA, COMMA, ITEMS[0]], [ITEMS[10], COMMA, COMMA, ITEMS[1]]]
+    # every run of two and three separators: alone, leading, between two items, trailing
+    import itertools as _it
+    for n in (2, 3):
+        for seq in _it.product((SEMI, COMMA), repeat=n):
+            seq = list(seq)
+            out.append(seq)
+            for a, b in ((ITEMS[10], ITEMS[1]), (ITEMS[0], ITEMS[10])):
+                out += [[a] + seq, seq + [a], [a] + seq + [b], [a] + seq + [b, SEMI]]
     return out
 
 
@@ -134,7 +142,7 @@ def gen_histories(tier, rng):
         for d in DEVS:
             hs.append([{"dev": d, "items": l}])
     pend = [[ITEMS[10], SEMI], [ITEMS[0], COMMA], [ITEMS[12], COMMA], [SEMI], [ITEMS[16], SEMI]]
-    must = [[], [SEMI], [COMMA], [ITEMS[10]], [ITEMS[0], SEMI], [ITEMS[18]], [ITEMS[19], SEMI]]
+    must = [[], [SEMI], [COMMA], [ITEMS[10]], [ITEMS[0], SEMI], [ITEMS[18]], [ITEMS[19], SEMI], [ITEMS[10], COMMA, SEMI], [ITEMS[10], SEMI, COMMA, ITEMS[1]]]
     sample = L if tier == "thorough" else must + rng.sample(L, 120)
     for p in pend:
         for l in sample:
